@@ -2,24 +2,26 @@
 """Developer tool: re-run every stored seeded change against the check(s) that are recorded to catch it.
 Usage: tools/seedall.py [budget_s] [id-substring ...]. Applies patch to /repo, runs ./check <prop> quick, reverts."""
 import json, os, subprocess, sys, glob, time
+HERE = os.path.dirname(os.path.dirname(os.path.abspath(__file__)))   # the /verif (or snapshot) directory
+REPO = os.environ.get('VERIF_REPO', '/repo')
 budget = sys.argv[1] if len(sys.argv) > 1 and sys.argv[1].isdigit() else '30'
 sel = [a for a in sys.argv[1:] if not a.isdigit()]
 def sh(c): return subprocess.run(c, shell=True, stdout=subprocess.PIPE, stderr=subprocess.STDOUT, text=True)
-assert sh('git -C /repo status --porcelain').stdout.strip() == '', '/repo dirty'
+assert sh('git -C %s status --porcelain' % REPO).stdout.strip() == '', REPO + ' dirty'
 res = []
-for d in sorted(glob.glob('/verif/seeded/*/')):
+for d in sorted(glob.glob(HERE + '/seeded/*/')):
     sid = os.path.basename(d.rstrip('/'))
     if sel and not any(s in sid for s in sel): continue
     meta = json.load(open(d + 'meta.json'))
-    for prop in meta['caught_by'][:1]:
-        r = sh('git -C /repo apply %spatch.diff' % d)
+    for prop in (meta['caught_by'] or meta['missed_by'])[:1]:
+        r = sh('git -C %s apply %spatch.diff' % (REPO, d))
         if r.returncode != 0:
             res.append((sid, prop, 'PATCH DOES NOT APPLY')); continue
         t0 = time.time()
         try:
-            r = sh('cd /verif && VERIF_BUDGET_S=%s ./check %s quick' % (budget, prop))
+            r = sh('cd %s && VERIF_BUDGET_S=%s ./check %s quick' % (HERE, budget, prop))
         finally:
-            sh('git -C /repo checkout -- .')
+            sh('git -C %s checkout -- .' % REPO)
         caught = any(l.startswith('VIOLATION') for l in r.stdout.splitlines())
         res.append((sid, prop, ('CAUGHT' if caught else 'MISSED') + ' exit=%d %.0fs' % (r.returncode, time.time() - t0)))
         print(res[-1], flush=True)
